@@ -14,6 +14,7 @@ use serde::Serialize;
 use serde_json::{json, Value};
 
 pub mod panics;
+pub mod worker;
 
 pub const EXIT_OK: i32 = 0;
 pub const EXIT_VIOLATION: i32 = 1;
